@@ -732,6 +732,14 @@ class _PropEval:
                 return base
             if self.loopvar and norm_text(sl) in ('%s + 1' % self.loopvar, '1 + %s' % self.loopvar):
                 return self.nextv(base)
+            try:
+                labels = self.ctx.repo.fold(sl, self.f.module)
+            except ValueError:
+                labels = None
+            if isinstance(labels, (list, tuple)) and \
+                    list(labels) == list(self.ctx.repo.const('util.TRAJECTORY_ERROR_COLS')):
+                # the whole error vector, selected by its documented labels in their order
+                return base
             raise AnalysisError('propagate_errors: index `%s`' % norm_text(e))
         if isinstance(e, ast.Call):
             q = self.res(e.func) or ''
